@@ -81,6 +81,14 @@ pub fn run(ctx: &Ctx) -> Outcome {
                   // an empty call first, and one in the middle
                   schedules.push(vec![p(0, Kind::InPlace), p(u, Kind::InPlace), p(0, Kind::InPlace), p(l - u, Kind::B2b)]);
               }
+              if dec.multi {
+                  // every call form of the front-end in turn (single-block entry points, closures, write_*), and unit by unit
+                  for path in crate::c01::paths(&dec) {
+                      if path.cycle == Some(0) || path.unit {
+                          schedules.push(crate::c01::pieces_for(&dec, &path, l));
+                      }
+                  }
+              }
               for pieces in &schedules {
                 let pieces = &pieces[..];
                 let Ok(Ok(base)) = std::panic::catch_unwind(std::panic::AssertUnwindSafe(|| (dec.run)(key, &iv, ct, pieces, &pre))) else {
